@@ -64,10 +64,12 @@ def dynamical_coring(trajs, lagtime, iterative=True):
         )
 
     # convert trajs to numba list # noqa: SC100
+    # the index trajectories are used, so that no state can coincide with the
+    # return value -1 of _find_first_core (no core found)
     if numba.config.DISABLE_JIT:
-        cored_trajs = trajs.trajs
+        cored_trajs = trajs.index_trajs
     else:  # pragma: no cover
-        cored_trajs = numba.typed.List(trajs.trajs)
+        cored_trajs = numba.typed.List(trajs.index_trajs)
 
     if lagtime <= 0:
         raise ValueError('The lagtime should be greater 0.')
@@ -77,9 +79,11 @@ def dynamical_coring(trajs, lagtime, iterative=True):
         return trajs
 
     # catch if lagtime <=1
-    return StateTraj(
-        list(_dynamical_coring(cored_trajs, lagtime, iterative)),
-    )
+    states = trajs.states
+    return StateTraj([
+        states[cored_traj]
+        for cored_traj in _dynamical_coring(cored_trajs, lagtime, iterative)
+    ])
 
 
 @numba.njit
